@@ -25,7 +25,7 @@ STRENGTH_ID = {
  "C20-m3": "caught as built (interleaved terms such as 'xax')", "C20-m4": "caught as built (number-first mixed sequences)",
 }
 def heading(pid, m):
-    sub = "-scratch2" if m in ("m3", "m4", "m5", "m6") else "-scratch"
+    sub = "-scratch3" if m in ("m5", "m6") else "-scratch2" if m in ("m3", "m4") else "-scratch"
     p = os.path.join(WT, pid + sub, "notes.md")
     if not os.path.exists(p): return None
     txt = open(p).read()
